@@ -5,127 +5,97 @@ import Huginn.Lemmas.Http1Pref
 /-
 C05 — HTTP/1.x heads are reported faithfully and independently of the body.
 Property theorems only; helper lemmas live in Huginn/Lemmas/Http1*.lean.
+
+The statement holds at full strength: the five known-finding classes of the snapshot (method gate,
+header-name case, Accept-Language weight OWS / "Q=", language-tag case, Unicode white-space
+trimming) were repaired in /repo (fixes/C05-1 … C05-4); their former witnesses are kept below as
+regression examples of the theorem.
 -/
 namespace Huginn.Props.C05
-open Huginn.Http1 Huginn.Http1.Spec Huginn.KF.C05
-
-/-! ### the statement at full strength -/
-
-/-- C05 for requests, as the property states it: every well-formed head, every body. -/
-def FullHeadReportReq : Prop :=
-  ∀ (h2 : H2) (h : ReqHead) (body : Bytes), WFReq h →
-    processorsParseRequest h2 (renderReq h ++ body) = some (some (reportReq h))
-
-/-- C05 for responses. -/
-def FullHeadReportRes : Prop :=
-  ∀ (h2 : H2) (h : ResHead) (body : Bytes), WFRes h →
-    processorsParseResponse h2 (renderRes h ++ body) = some (reportRes h)
+open Huginn.Http1 Huginn.Http1.Spec
 
 /-! ### head_report: the main theorems -/
 
-private theorem fields_no_uspace_req {h : ReqHead} (k5 : ¬ unicodeSpaceReq h) : ∀ f ∈ h.fields, fieldUSpace f = false := by
-  intro f hf
-  cases hq : fieldUSpace f with
-  | false => rfl
-  | true => exact absurd (Or.inl ⟨f, hf, hq⟩) k5
-
-private theorem fields_no_uspace_res {h : ResHead} (k5 : ¬ unicodeSpaceRes h) : ∀ f ∈ h.fields, fieldUSpace f = false := by
-  intro f hf
-  cases hq : fieldUSpace f with
-  | false => rfl
-  | true => exact absurd ⟨f, hf, hq⟩ k5
-
-/-- **head_report (requests).** For every well-formed request head (any supported method, any
-header names incl. case variants and duplicates, any UTF-8 values, any OWS, 0..100 headers, CRLF line
-ends), every body and every HTTP/2 processor behind the HTTP/1 one: `HttpProcessors::parse_request`
-on `render h ++ body` reports exactly `reportReq h` — outside the five known-finding classes. -/
-theorem head_report_req_partial (h2 : H2) (h : ReqHead) (body : Bytes) (wf : WFReq h)
-    (k1 : ¬ methodGate h) (k2 : ¬ headerNameCaseReq h) (k3 : ¬ langWeightOws h) (k4 : ¬ langTagCase h)
-    (k5 : ¬ unicodeSpaceReq h) :
+/-- **head_report (requests).** For every well-formed request head (any of the 18 supported methods,
+any header names incl. case variants and duplicates, any UTF-8 values, any OWS, 0..100 headers, lines
+up to 8192 bytes, CRLF line ends; at most one Cookie and one Referer field; Accept-Language per
+RFC 7231), every body and every HTTP/2 processor behind the HTTP/1 one:
+`HttpProcessors::parse_request` on `render h ++ body` reports exactly `reportReq h`. -/
+theorem head_report_req (h2 : H2) (h : ReqHead) (body : Bytes) (wf : WFReq h) :
     processorsParseRequest h2 (renderReq h ++ body) = some (some (reportReq h)) := by
-  obtain ⟨info, hp⟩ := parseRequest_wf h body wf (fields_no_uspace_req k5)
+  obtain ⟨info, hp⟩ := parseRequest_wf h body wf
   have hg : h1CanParse (renderReq h ++ body) = true := by
-    unfold h1CanParse; rw [h1CanRequest_wf h body wf k1]; rfl
+    unfold h1CanParse; rw [h1CanRequest_wf h body wf]; rfl
   unfold processorsParseRequest
   simp only [hg, if_true]
   unfold h1ProcessRequest
   rw [hp]
-  simp only [toObsReq_assemble h info wf k2 k3 k4 k5, Option.map_some]
+  simp only [toObsReq_assemble h info wf, Option.map_some]
 
 /-- **head_report (responses).** -/
-theorem head_report_res_partial (h2 : H2) (h : ResHead) (body : Bytes) (wf : WFRes h)
-    (k2 : ¬ headerNameCaseRes h) (k5 : ¬ unicodeSpaceRes h) :
+theorem head_report_res (h2 : H2) (h : ResHead) (body : Bytes) (wf : WFRes h) :
     processorsParseResponse h2 (renderRes h ++ body) = some (reportRes h) := by
-  obtain ⟨info, hp⟩ := parseResponse_wf h body wf (fields_no_uspace_res k5)
+  obtain ⟨info, hp⟩ := parseResponse_wf h body wf
   have hg : h1CanParse (renderRes h ++ body) = true := by
     unfold h1CanParse; rw [h1CanResponse_wf h body wf]; simp
   unfold processorsParseResponse
   simp only [hg, if_true]
   unfold h1ProcessResponse
   rw [hp]
-  simp only [toObsRes_assemble h info k2]
+  simp only [toObsRes_assemble h info]
 
 /-- **body_independent** (corollary): nothing that follows the blank line changes the report. -/
-theorem body_independent_req (h2 : H2) (h : ReqHead) (b₁ b₂ : Bytes) (wf : WFReq h)
-    (k1 : ¬ methodGate h) (k2 : ¬ headerNameCaseReq h) (k3 : ¬ langWeightOws h) (k4 : ¬ langTagCase h)
-    (k5 : ¬ unicodeSpaceReq h) :
+theorem body_independent_req (h2 : H2) (h : ReqHead) (b₁ b₂ : Bytes) (wf : WFReq h) :
     processorsParseRequest h2 (renderReq h ++ b₁) = processorsParseRequest h2 (renderReq h ++ b₂) := by
-  rw [head_report_req_partial h2 h b₁ wf k1 k2 k3 k4 k5, head_report_req_partial h2 h b₂ wf k1 k2 k3 k4 k5]
+  rw [head_report_req h2 h b₁ wf, head_report_req h2 h b₂ wf]
 
-theorem body_independent_res (h2 : H2) (h : ResHead) (b₁ b₂ : Bytes) (wf : WFRes h)
-    (k2 : ¬ headerNameCaseRes h) (k5 : ¬ unicodeSpaceRes h) :
+theorem body_independent_res (h2 : H2) (h : ResHead) (b₁ b₂ : Bytes) (wf : WFRes h) :
     processorsParseResponse h2 (renderRes h ++ b₁) = processorsParseResponse h2 (renderRes h ++ b₂) := by
-  rw [head_report_res_partial h2 h b₁ wf k2 k5, head_report_res_partial h2 h b₂ wf k2 k5]
+  rw [head_report_res h2 h b₁ wf, head_report_res h2 h b₂ wf]
 
-/-- non-vacuity: a well-formed head outside every known-finding class, with duplicates, a case
-variant, UTF-8, OWS variants, a Cookie and an Accept-Language list -/
+/-- non-vacuity: a well-formed head with duplicates, case variants (`user-agent`, `cache-control`),
+UTF-8 incl. a value edged by U+00A0, OWS variants, a Cookie and an Accept-Language list with OWS
+after ";", "Q=" and an upper-case tag -/
 private def sample : ReqHead :=
-  { method := ascii "GET", target := ascii "/index.html?q=1", ver := .v11,
+  { method := ascii "REPORT", target := ascii "/index.html?q=1", ver := .v11,
     fields := [⟨ascii "Host", [SP], ascii "example.com", []⟩,
-               ⟨ascii "User-Agent", [SP, HT], ascii "curl/8.4.0", [SP]⟩,
-               ⟨ascii "X-Name", [], [0xE4, 0xB8, 0xAD, 0xE6, 0x96, 0x87], []⟩,
+               ⟨ascii "user-agent", [SP, HT], ascii "curl/8.4.0", [SP]⟩,
+               ⟨ascii "X-Name", [], [0xC2, 0xA0, 0xE4, 0xB8, 0xAD, 0xE6, 0x96, 0x87], []⟩,
                ⟨ascii "x-name", [SP], ascii "again", []⟩,
+               ⟨ascii "cache-control", [SP], ascii "no-cache", []⟩,
                ⟨ascii "Cookie", [SP], ascii "a=1; b", []⟩,
-               ⟨ascii "Accept-Language", [SP], ascii "fr;q=0.5,en-US;q=0.8 ,de", []⟩],
-    langs := [⟨[], ascii "fr", [], some ⟨[], false, 0, ascii "5", true, []⟩⟩,
-              ⟨[], ascii "en-US", [], some ⟨[], false, 0, ascii "8", true, [SP]⟩⟩,
-              ⟨[], ascii "de", [], none⟩] }
+               ⟨ascii "Accept-Language", [SP], ascii "fr; q=0.9,EN-US;Q=0.8 ,de;q=0.9", []⟩],
+    langs := [⟨[], ascii "fr", [], some ⟨[SP], false, 0, ascii "9", true, []⟩⟩,
+              ⟨[], ascii "EN-US", [], some ⟨[], true, 0, ascii "8", true, [SP]⟩⟩,
+              ⟨[], ascii "de", [], some ⟨[], false, 0, ascii "9", true, []⟩⟩] }
 
-example : WFReq sample ∧ ¬ methodGate sample ∧ ¬ headerNameCaseReq sample ∧ ¬ langTagCase sample ∧
-    ¬ unicodeSpaceReq sample := by decide +kernel
+example : WFReq sample := by decide +kernel
 
-private def sample2 : ReqHead := { sample with
-  fields := sample.fields.take 5 ++ [⟨ascii "Accept-Language", [SP], ascii "fr;q=0.5,en-US;q=0.8,de", []⟩],
-  langs := [⟨[], ascii "fr", [], some ⟨[], false, 0, ascii "5", true, []⟩⟩,
-            ⟨[], ascii "en-US", [], some ⟨[], false, 0, ascii "8", true, []⟩⟩,
-            ⟨[], ascii "de", [], none⟩] }
-
-example : WFReq sample2 ∧ ¬ methodGate sample2 ∧ ¬ headerNameCaseReq sample2 ∧ ¬ langWeightOws sample2 ∧
-    ¬ langTagCase sample2 ∧ ¬ unicodeSpaceReq sample2 := by decide +kernel
-
-example : (reportReq sample2).lang = some (ascii "German") ∧ (reportReq sample2).headers.length = 5 ∧
-    (reportReq sample2).cookies.length = 2 := by decide +kernel
+example : (reportReq sample).lang = some (ascii "French") ∧ (reportReq sample).headers.length = 6 ∧
+    (reportReq sample).cookies.length = 2 ∧
+    (reportReq sample).horder[1]? = some ⟨false, ascii "user-agent", none⟩ ∧
+    (reportReq sample).horder[4]? = some ⟨true, ascii "cache-control", none⟩ ∧
+    ((reportReq sample).headers[2]?.bind (·.value)) = some [0xC2, 0xA0, 0xE4, 0xB8, 0xAD, 0xE6, 0x96, 0x87] := by
+  decide +kernel
 
 private def sampleRes : ResHead :=
   { ver := .v10, status := ascii "404", reason := ascii "Not Found",
-    fields := [⟨ascii "Server", [SP], ascii "nginx/1.24.0", []⟩, ⟨ascii "Content-Length", [SP], ascii "3", []⟩] }
+    fields := [⟨ascii "server", [SP], ascii "nginx/1.24.0", []⟩, ⟨ascii "Content-Length", [SP], ascii "3", []⟩] }
 
-example : WFRes sampleRes ∧ ¬ headerNameCaseRes sampleRes ∧ ¬ unicodeSpaceRes sampleRes := by decide +kernel
+example : WFRes sampleRes ∧ (reportRes sampleRes).expsw = ascii "nginx/1.24.0" := by decide +kernel
 
 /-! ### lang_highest_q -/
 
 /-- **lang_highest_q.** For every RFC 7231 Accept-Language list (elements with OWS, language ranges
-with subtags, optional `;q=` weights of up to three decimals; outside the two weight/tag classes)
-`get_highest_quality_language` on its rendering returns the language of the *earliest* element among
-those with the *maximal* quality among elements with a known primary tag (qualities compared as exact
-rationals) — and nothing if no element has a known tag. -/
-theorem lang_highest_q (ls : List LangItem) (hne : ls ≠ [])
-    (hwf : ∀ i ∈ ls, LangItemWF i) (k3 : ∀ i ∈ ls, weightOws i = false)
-    (k4 : ∀ i ∈ ls, (splitByte 45 i.tag).headD [] = primaryLower i) :
+with subtags in any letter case, optional weights `OWS ";" OWS ("q="/"Q=") qvalue OWS` of up to three
+decimals) `get_highest_quality_language` on its rendering returns the language of the *earliest*
+element among those with the *maximal* quality among elements with a known primary tag (qualities
+compared as exact rationals) — and nothing if no element has a known tag. -/
+theorem lang_highest_q (ls : List LangItem) (hne : ls ≠ []) (hwf : ∀ i ∈ ls, LangItemWF i) :
     (∀ name, highestQualityLanguage (renderLangs ls) = some (some name) → Preferred ls name) ∧
     (highestQualityLanguage (renderLangs ls) = some none → NoPreferred ls) ∧
     highestQualityLanguage (renderLangs ls) ≠ none := by
-  have hp := highestQualityLanguage_plain ls hne (fun i hi => ⟨hwf i hi, k3 i hi, k4 i hi⟩)
+  have hp := highestQualityLanguage_wf ls hne hwf
   obtain ⟨s1, s2⟩ := preferredLang_spec ls
   rw [hp]
   refine ⟨fun name hn => s1 name (by simpa using hn), fun hn => s2 (by simpa using hn), by simp⟩
@@ -154,77 +124,16 @@ example : EndsAtFirstBlank (ascii "HTTP/1.1 200 OK\r\nServer: x\r\n\r\n") := by 
 example : parseResponse (ascii "HTTP/1.1 200 OK\r\nServer: x\r\n\r\n" ++ [0x1f, 0x8b, 0xff, 0xfe]) =
     parseResponse (ascii "HTTP/1.1 200 OK\r\nServer: x\r\n\r\n") := by decide +kernel
 
-/-! ### known-finding witnesses: the full statement fails inside each class -/
+/-! ### regression: the witnesses of the repaired findings now satisfy the statement -/
 
 private def noH2 : H2 := ⟨fun _ => none, fun _ => none⟩
 
-private def wGate : ReqHead :=
-  { method := ascii "REPORT", target := ascii "/", ver := .v11,
-    fields := [⟨ascii "Host", [SP], ascii "a", []⟩] }
+/-- `fr; q=0.1,en` reports English (was French) -/
+example : ((processorsParseRequest noH2 (ascii "GET / HTTP/1.1\r\nAccept-Language: fr; q=0.1,en\r\n\r\n")).bind id).bind (·.lang)
+    = some (ascii "English") := by decide +kernel
 
-theorem kf_methodGate_witness : ¬ FullHeadReportReq := by
-  intro hf
-  have h := hf noH2 wGate [] (by decide +kernel)
-  revert h; decide +kernel
-
-example : methodGate wGate := by decide +kernel
-
-private def wCase : ReqHead :=
-  { method := ascii "GET", target := ascii "/", ver := .v11,
-    fields := [⟨ascii "host", [SP], ascii "a", []⟩, ⟨ascii "user-agent", [SP], ascii "curl/8", []⟩] }
-
-theorem kf_headerNameCase_witness : ¬ FullHeadReportReq := by
-  intro hf
-  have h := hf noH2 wCase [] (by decide +kernel)
-  revert h; decide +kernel
-
-example : headerNameCaseReq wCase ∧ ¬ methodGate wCase := by decide +kernel
-
-private def wCaseRes : ResHead :=
-  { ver := .v11, status := ascii "200", reason := ascii "OK",
-    fields := [⟨ascii "server", [SP], ascii "nginx", []⟩] }
-
-theorem kf_headerNameCase_witness_res : ¬ FullHeadReportRes := by
-  intro hf
-  have h := hf noH2 wCaseRes [] (by decide +kernel)
-  revert h; decide +kernel
-
-private def wLang : ReqHead :=
-  { method := ascii "GET", target := ascii "/", ver := .v11,
-    fields := [⟨ascii "Host", [SP], ascii "a", []⟩,
-               ⟨ascii "Accept-Language", [SP], ascii "fr; q=0.1,en", []⟩],
-    langs := [⟨[], ascii "fr", [], some ⟨[SP], false, 0, ascii "1", true, []⟩⟩, ⟨[], ascii "en", [], none⟩] }
-
-/-- `fr; q=0.1,en`: the code reports French. -/
-theorem kf_langWeightOws_witness : ¬ FullHeadReportReq := by
-  intro hf
-  have h := hf noH2 wLang [] (by decide +kernel)
-  revert h; decide +kernel
-
-example : langWeightOws wLang ∧ ¬ headerNameCaseReq wLang ∧ ¬ langTagCase wLang := by decide +kernel
-
-private def wTag : ReqHead :=
-  { method := ascii "GET", target := ascii "/", ver := .v11,
-    fields := [⟨ascii "Accept-Language", [SP], ascii "EN-US,fr;q=0.5", []⟩],
-    langs := [⟨[], ascii "EN-US", [], none⟩, ⟨[], ascii "fr", [], some ⟨[], false, 0, ascii "5", true, []⟩⟩] }
-
-theorem kf_langTagCase_witness : ¬ FullHeadReportReq := by
-  intro hf
-  have h := hf noH2 wTag [] (by decide +kernel)
-  revert h; decide +kernel
-
-example : langTagCase wTag ∧ ¬ langWeightOws wTag := by decide +kernel
-
-private def wSpace : ReqHead :=
-  { method := ascii "GET", target := ascii "/", ver := .v11,
-    fields := [⟨ascii "X-Note", [SP], [0xC2, 0xA0] ++ ascii "padded", []⟩] }
-
-/-- a value starting with U+00A0 loses it -/
-theorem kf_unicodeSpace_witness : ¬ FullHeadReportReq := by
-  intro hf
-  have h := hf noH2 wSpace [] (by decide +kernel)
-  revert h; decide +kernel
-
-example : unicodeSpaceReq wSpace := by decide +kernel
+/-- `REPORT` passes the gate (was not reported) -/
+example : (processorsParseRequest noH2 (ascii "REPORT /cal HTTP/1.1\r\nHost: a\r\n\r\n")).bind id ≠ none := by
+  decide +kernel
 
 end Huginn.Props.C05
